@@ -35,8 +35,23 @@ func c05Types(sp *refcodec.Spec) *c05Table {
 
 // c05Judge checks one decode outcome against the frozen type table.
 // mustAccept: the input is header + a minimal valid body of the named type.
-func c05Judge(c *core.Ctx, k *core.Case, ep int, b []byte, t *c05Table, mustAccept bool) {
+func c05Judge(c *core.Ctx, k *core.Case, ep int, b []byte, t *c05Table, mustAccept bool, preset ...uint8) {
 	m, err := decode3(cloneB(b), ep)
+	if len(preset) > 0 && preset[0] > 0 {
+		// the receiver carries the security header its caller recorded for this PDU
+		m = nas.NewMessage()
+		m.SecurityHeader = nas.SecurityHeader{ProtocolDiscriminator: 0x7e, SecurityHeaderType: preset[0] & 7, MessageAuthenticationCode: 0x01020304, SequenceNumber: preset[0]}
+		in := cloneB(b)
+		switch ep {
+		case epPlain:
+			err = m.PlainNasDecode(&in)
+		case epGmm:
+			err = m.GmmMessageDecode(&in)
+		case epGsm:
+			err = m.GsmMessageDecode(&in)
+		}
+		c.Count("decodes_into_receiver_with_recorded_security_header", 1)
+	}
 	var def *refcodec.Msg
 	fam := ""
 	switch {
@@ -173,13 +188,17 @@ func b2i(b bool) int64 {
 	return 0
 }
 
-// oracle "one": B=[input] I=[entry, mustAccept]
+// oracle "one": B=[input] I=[entry, mustAccept, (security header type recorded in the receiver)]
 func c05One(c *core.Ctx, k *core.Case) {
 	sp := mustSpec(c)
 	if sp == nil {
 		return
 	}
 	c.Eval(1)
+	if len(k.I) > 2 {
+		c05Judge(c, k, int(k.I[0]), k.B[0], c05Types(sp), k.I[1] == 1, uint8(k.I[2]))
+		return
+	}
 	c05Judge(c, k, int(k.I[0]), k.B[0], c05Types(sp), k.I[1] == 1)
 }
 
@@ -323,6 +342,109 @@ func c05Encode(c *core.Ctx, k *core.Case) {
 	c.Eval(n)
 }
 
+// oracle "encode-extra": I=[family] — a message whose family part holds, besides the
+// body its header names, one more body (what is left from an earlier use of the value,
+// including the security-protected container, which has no type of its own), with
+// every security header type nibble in the header: the bytes are those of the named
+// body alone. The same with a header naming an unassigned type: an error.
+func c05EncodeExtra(c *core.Ctx, k *core.Case) {
+	sp := mustSpec(c)
+	if sp == nil {
+		return
+	}
+	t := c05Types(sp)
+	r := prng.New(199)
+	fam := int(k.I[0])
+	var n int64
+	for mt := 0; mt < 256; mt++ {
+		def := t.gmm[mt]
+		if fam == 1 {
+			def = t.gsm[mt]
+		}
+		var body []byte
+		var obj interface{}
+		if def != nil {
+			body = refcodec.MinimalBody(def, r)
+			var err error
+			if obj, err = buildMsg(def, refcodec.Decode(def, body).Fields); err != nil {
+				continue
+			}
+		} else if mt%16 != 3 {
+			continue
+		}
+		for sht := 0; sht <= 4; sht++ {
+			if fam == 1 && sht > 0 {
+				break
+			}
+			var hdr []byte
+			if def != nil {
+				hdr = cloneB(body[:def.HeaderLen()])
+			} else if fam == 0 {
+				hdr = []byte{0x7e, 0, byte(mt)}
+			} else {
+				hdr = []byte{0x2e, 1, 1, byte(mt)}
+			}
+			if fam == 0 {
+				hdr[1] = hdr[1]&0xf0 | byte(sht)
+			}
+			m := nas.NewMessage()
+			var fv reflect.Value
+			if fam == 0 {
+				m.GmmMessage = nas.NewGmmMessage()
+				copy(m.GmmMessage.GmmHeader.Octet[:], hdr)
+				fv = reflect.ValueOf(m.GmmMessage).Elem()
+			} else {
+				m.GsmMessage = nas.NewGsmMessage()
+				copy(m.GsmMessage.GsmHeader.Octet[:], hdr)
+				fv = reflect.ValueOf(m.GsmMessage).Elem()
+			}
+			var want []byte
+			if def != nil {
+				// the named body carries the same header octets
+				ov := reflect.ValueOf(obj).Elem()
+				pos := 0
+				for i := 0; i < def.HeaderLen() && pos < len(hdr); i++ {
+					f := ov.Field(i)
+					if f.Kind() == reflect.Struct && f.NumField() == 1 && f.Field(0).Kind() == reflect.Uint8 {
+						f.Field(0).SetUint(uint64(hdr[pos]))
+						pos++
+					}
+				}
+				fv.FieldByName(def.Name).Set(reflect.ValueOf(obj))
+				alone, err := m.PlainNasEncode()
+				if err != nil {
+					continue
+				}
+				want = cloneB(alone)
+			}
+			for fi := 0; fi < fv.NumField(); fi++ {
+				f := fv.Field(fi)
+				if f.Kind() != reflect.Ptr || (def != nil && fv.Type().Field(fi).Name == def.Name) {
+					continue
+				}
+				if (fi+mt+sht)%4 != 0 && fv.Type().Field(fi).Name != "SecurityProtected5GSNASMessage" {
+					continue
+				}
+				f.Set(reflect.New(f.Type().Elem()))
+				got, err := m.PlainNasEncode()
+				n++
+				extra := fv.Type().Field(fi).Name
+				kk := &core.Case{Oracle: "encode-extra", Target: "nas.Message.PlainNasEncode", I: []int64{int64(fam)}}
+				switch {
+				case def == nil && err == nil:
+					c.Fail(kk, "encode-unknown-type-accepted:extra-body", fmt.Sprintf("header % x names an unassigned type, the %s body is set: PlainNasEncode returned %s and no error", hdr, extra, hx(got)))
+				case def != nil && (err != nil || !bytes.Equal(got, want)):
+					c.Fail(kk, "encode-dispatch-extra-body:"+def.Name, fmt.Sprintf("header % x names %s; with the %s body also set PlainNasEncode gives %s (err %v), with the named body alone %s", hdr, def.Name, extra, hx(got), err, hx(want)))
+				}
+				f.Set(reflect.Zero(f.Type()))
+				c.Cover("extra_body", extra)
+			}
+		}
+	}
+	c.Eval(n)
+	c.Count("encodes_with_extra_body", n)
+}
+
 // oracle "reuse": I=[seed, n] — a sequence of PDUs of both families decoded into ONE
 // nas.Message value; after every successful decode exactly one body is populated,
 // the one the type octet names, and the message equals a fresh decode.
@@ -383,7 +505,7 @@ func init() {
 			"a header naming a type whose body pointer is nil is a caller error outside the statement (it dereferences nil today); not exercised",
 			"the family decoders route on the type octet only; the first octet is judged through PlainNasDecode",
 		},
-		Oracles: map[string]func(*core.Ctx, *core.Case){"cold-entries": coldEntries, "grid": c05Grid, "one": c05One, "short": c05Short, "encode": c05Encode, "reuse": c05Reuse, "cold-concurrent": coldConcurrent},
+		Oracles: map[string]func(*core.Ctx, *core.Case){"cold-entries": coldEntries, "grid": c05Grid, "one": c05One, "short": c05Short, "encode": c05Encode, "encode-extra": c05EncodeExtra, "reuse": c05Reuse, "cold-concurrent": coldConcurrent},
 		Exhaustive: func(tier string) (bool, string) {
 			return true, "all 65 536 (first octet, type) pairs at both header offsets; bodies sampled"
 		},
@@ -466,6 +588,14 @@ func init() {
 					}
 					c.Do(&core.Case{Oracle: "one", Target: "nas.Message." + epNames[ep], B: [][]byte{b}, I: []int64{ep, 1}})
 				}
+				if d.Def.Family == "GMM" && i%4 == 0 {
+					// the message as it travels: behind a security header (type 1..4, MAC, sequence number)
+					w := securityWrapped(c.R, d.B, 1+i/4%4)
+					c.Do(&core.Case{Oracle: "one", Target: "nas.Message.PlainNasDecode", B: [][]byte{w}, I: []int64{epPlain, 0}})
+					// ... into a receiver in which the caller recorded that security header
+					c.Do(&core.Case{Oracle: "one", Target: "nas.Message.PlainNasDecode", B: [][]byte{w}, I: []int64{epPlain, 0, int64(w[1])}})
+					c.Do(&core.Case{Oracle: "one", Target: "nas.Message.PlainNasDecode", B: [][]byte{d.B}, I: []int64{epPlain, 1, int64(1 + i/4%4)}})
+				}
 			})...)
 		}
 		us = append(us, core.Unit{Name: "short", Weight: 5, Run: func(c *core.Ctx) {
@@ -497,6 +627,8 @@ func init() {
 		}
 		us = append(us, core.Unit{Name: "encode", Weight: 5, Run: func(c *core.Ctx) {
 			c.Do(&core.Case{Oracle: "encode", Target: "nas.Message"})
+			c.Do(&core.Case{Oracle: "encode-extra", Target: "nas.Message", I: []int64{0}})
+			c.Do(&core.Case{Oracle: "encode-extra", Target: "nas.Message", I: []int64{1}})
 		}})
 		us = append(us, coldEntryUnits(tier, "nas.Message", "codec")...)
 		return us
@@ -512,6 +644,17 @@ func sliceRange(v reflect.Value) (lo, hi uintptr) {
 	}
 	lo = v.Pointer()
 	return lo, lo + uintptr(v.Cap())
+}
+
+// securityWrapped puts a security header (type sht, four MAC octets, sequence
+// number) in front of a complete plain 5GMM message.
+func securityWrapped(r *prng.Rand, plain []byte, sht int) []byte {
+	out := []byte{0x7e, byte(sht)}
+	out = append(out, r.Bytes(5)...)
+	if r.Chance(1, 4) {
+		copy(out[2:6], []byte{0, 0, 0, 0}) // null integrity
+	}
+	return append(out, plain...)
 }
 
 // oracle "decode-pure": B=[input] I=[entry]
@@ -688,6 +831,13 @@ func c10Encode(c *core.Ctx, k *core.Case) {
 		}
 		return msgEncoder(obj, def.Name)(buf)
 	}
+	// half of the messages (by their hash) have their octet strings in windows of one
+	// array with spare capacity: only appending to the SUPPLIED buffer is allowed
+	guards := func() string { return "" }
+	if core.HashBytes(0x11, k.B[0])&1 == 1 {
+		guards = rehouse(reflect.ValueOf(obj))
+		c.Count("encodes_of_rehoused_messages", 1)
+	}
 	snap := deepCopy(reflect.ValueOf(obj)).Interface()
 	var empty bytes.Buffer
 	if err := encodeInto(&empty); err != nil {
@@ -695,6 +845,9 @@ func c10Encode(c *core.Ctx, k *core.Case) {
 		return
 	}
 	want := cloneB(empty.Bytes())
+	if g := guards(); g != "" {
+		c.Fail(k, "encode-writes-behind-message-field:"+def.Name, g)
+	}
 	if !reflect.DeepEqual(obj, snap) {
 		c.Fail(k, "encode-mutates-message:"+def.Name+"."+firstDiff(def, snap, obj), "message differs from its deep snapshot after encode")
 	}
@@ -715,6 +868,9 @@ func c10Encode(c *core.Ctx, k *core.Case) {
 	}
 	if !reflect.DeepEqual(obj, snap) {
 		c.Fail(k, "encode-mutates-message:"+def.Name+"."+firstDiff(def, snap, obj), "message differs from its deep snapshot after the second encode")
+	}
+	if g := guards(); g != "" {
+		c.Fail(k, "encode-writes-behind-message-field:"+def.Name, g)
 	}
 	// the slice PlainNasEncode returns must not share memory with the message either
 	if def.MsgType != nil {
@@ -939,6 +1095,14 @@ func init() {
 				}
 			}
 			c.Do(&core.Case{Oracle: "decode-pure", Target: "nas.Message." + epNames[ep], B: [][]byte{d.B}, I: []int64{ep}})
+			if d.Def.Family == "GMM" {
+				// the same message with another security header type nibble, and as it
+				// travels: behind a security header (type 1..4, MAC, sequence number)
+				b := cloneB(d.B)
+				b[1] = b[1]&0xf0 | byte(1+i/3%4)
+				c.Do(&core.Case{Oracle: "decode-pure", Target: "nas.Message." + epNames[ep], B: [][]byte{b}, I: []int64{ep}})
+				c.Do(&core.Case{Oracle: "decode-pure", Target: "nas.Message." + epNames[ep], B: [][]byte{securityWrapped(c.R, d.B, 1+i/3%4)}, I: []int64{ep}})
+			}
 		})...)
 		us = append(us, core.Unit{Name: "repository-samples", Weight: 20, Run: func(c *core.Ctx) {
 			for i, s := range repositorySamples() {
